@@ -91,7 +91,10 @@ def spec_product(tier):
 def run_job(job):
     r = C.Result()
     kind_job = job[0]
-    if kind_job == 'sprod':
+    if kind_job == 'bigprec':
+        reqs = [('f', v, '.%d%s' % (p, t), {'typ': t}) for v in [5e-324, 2.0 ** -768, 1e-300, 1e-215, 0.1, 1.7976931348623157e308, 2.0 ** -1000 * 3] for p in (766, 767, 768, 769, 800, 1074, 1075, 1100)
+                for t in ('f', 'e', '%', 'g')]
+    elif kind_job == 'sprod':
         # text values: width, precision and padding are counted in characters, never in bytes
         reqs = [('s', v, f + w + p + t, {'typ': t}) for v in STRS2 for f in ['', '<', '>', '^', 'x<', 'é^', '0'] for w in [''] + [str(i) for i in range(0, 9)]
                 for p in [''] + ['.%d' % i for i in range(0, 10)] for t in ['', 's']]
@@ -124,6 +127,7 @@ def run(tier, seed):
     jobs = [('prod', ch) for ch in X.chunks(spec_product(tier), 1500)]
     nspecs = sum(len(j[1]) for j in jobs)
     jobs.append(('sprod',))
+    jobs.append(('bigprec',))
     n = 3 if tier == 'quick' else 5
     jobs += [('mal', MAL_SIGMA, n, s) for s in X.prefix_shards(MAL_SIGMA, n, 1 if tier == 'quick' else 2)]
     total = C.Result()
